@@ -770,6 +770,8 @@ def ground_eval(t):
         return 2 * v[0] + 1
     if name == 'Suc':
         return v[0] + 1
+    if name == 'Pre' and rn == 'nat':
+        return max(v[0] - 1, 0)     # library (nat.json): Pre 0 = 0, Pre (Suc n) = n
     if name in ('of_nat', 'of_int') and rn in NUM:
         if rn == 'nat' and argTs[0].name == 'int':
             raise Unsupported('of_int at nat')
